@@ -458,7 +458,10 @@ class IntegerFieldFormat(AbstractFieldFormat):
                         % (_compat.text_repr(field_name), self.length)
                     )
                 length = ranges.Range("1...%d" % self.length.upper_limit)
-            length_range = ranges.create_range_from_length(length)
+            try:
+                length_range = ranges.create_range_from_length(length)
+            except (errors.RangeValueError, OverflowError) as error:
+                raise errors.InterfaceError("cannot derive valid integer range from length %s: %s" % (length, error))
 
         has_rule = (rule is not None) and (rule.strip() != "")
         if has_rule:
